@@ -15,8 +15,10 @@ ACTIONS = ['adv-g1', 'adv-g2', 'close-g1', 'close-g2', 'enter', 'exit', 'read', 
 
 
 class Gen:
-    def __init__(self, arr, c, n):
+    def __init__(self, arr, c, n, s=None):
         self.c = c
+        self.s = c if s is None else s     # step between chunk starts (overlapping chunks when s < c)
+        self.rem_done = False
         self.g = None
         self.done = False
         self.k = 0          # frames yielded so far
@@ -27,39 +29,47 @@ class Gen:
         return self.g is not None
 
 
-def h_schedule(n: int, c1: int, c2: int, order: bool, probe: int, acts=(0, 1), MAXCH=2,
-               _gate=None, _small=False):
+def h_schedule(n: int, c1: int, c2: int, s1: int, order: bool, probe: int, acts=(0, 1), MAXCH=2,
+               overlap=False, _gate=None, _small=False):
     """a well-formed schedule of L actions over two iterchunks generators (chunk lengths c1, c2),
     up to two nested open_array() contexts, element reads and writes; then every survivor is
     finished (generators in either order)."""
     assume(1 <= n <= BIG and 1 <= c1 <= BIG and 1 <= c2 <= BIG)
-    assume(n <= MAXCH * c1 and n <= MAXCH * c2)           # at most MAXCH chunks per generator
-    small(_small, n, c1, c2)
+    if overlap:
+        assume(1 <= s1 <= c1 and n - c1 < MAXCH * s1 and n <= MAXCH * c2)     # g1 yields overlapping chunks
+    else:
+        assume(s1 == c1 and n <= MAXCH * c1 and n <= MAXCH * c2)           # at most MAXCH chunks per generator
+    small(_small, n, c1, c2, s1)
     w = new_world()
     put_array(D, w, '/w/a', n, 'int32', 'little', ())
     arr = D.array.Array('/w/a', accessmode='r+')
     ref = Seq.of(('orig',), n)
-    gens = [Gen(arr, c1, n), Gen(arr, c2, n)]
+    gens = [Gen(arr, c1, n, s1), Gen(arr, c2, n)]
     ctxs = []
     nwrites = 0
 
     def advance(g):
         nonlocal ref
         if not g.started():
-            g.g = arr.iterchunks(g.c)
+            g.g = arr.iterchunks(g.c, stepsize=g.s if overlap and g is gens[0] else None)
+        fs = g.k * g.s
+        lastend = (g.k - 1) * g.s + g.c if g.k >= 1 else 0
+        full = fs + g.c <= n
+        rem_due = (not full) and (not g.rem_done) and fs < n and n > lastend
         try:
             ch = next(g.g)
         except StopIteration:
             g.done = True
-            if g.k * g.c < n:
+            if full or rem_due:
                 raise Violation('generator stopped before the end of the array')
             return
-        fs = g.k * g.c
-        fe = fs + g.c
-        if fe > n:
+        if full:
+            fe = fs + g.c
+        elif rem_due:
             fe = n
-        if fs >= n:
-            raise Violation('generator yielded a chunk beyond the end of the array')
+            g.rem_done = True
+        else:
+            raise Violation('generator yielded a chunk beyond the specified frames')
         rows = ch._rows()
         if ch.shape[0] != fe - fs or not seq_equal(rows, ref.cut(fs, fe), probe):
             raise Violation('a yielded chunk differs from the array contents at that moment',
@@ -101,7 +111,7 @@ def h_schedule(n: int, c1: int, c2: int, order: bool, probe: int, acts=(0, 1), M
         for g in (first, second):
             if g.started() and not g.done:
                 # exhaust it
-                for _ in range(MAXCH + 1):
+                for _ in range(MAXCH + 2):
                     if not g.done:
                         advance(g)
         while ctxs:
@@ -127,15 +137,16 @@ N = n * ROW
 a = darr.asarray(p, np.arange(N, dtype='int32'), accessmode='r+')
 ref = np.arange(N, dtype='int32')
 gens = [None, None]; done = [False, False]; k = [0, 0]; cs = [spec['c1'] * ROW, spec['c2'] * ROW]
+ss = [spec.get('s1', spec['c1']) * ROW, spec['c2'] * ROW]; remd = [False, False]
 ctxs = []
 probs = []
 def advance(i):
-    if gens[i] is None: gens[i] = a.iterchunks(cs[i])
+    if gens[i] is None: gens[i] = a.iterchunks(cs[i], stepsize=ss[i])
     try: ch = next(gens[i])
     except StopIteration:
         done[i] = True; return
-    fs = k[i] * cs[i]; fe = min(fs + cs[i], N)
-    if ch.shape[0] != fe - fs or ch.tobytes() != ref[fs:fe].tobytes(): probs.append(f'chunk {k[i]} of g{i+1} differs')
+    fs = k[i] * ss[i]; fe = fs + cs[i] if fs + cs[i] <= N else N
+    if ch.shape[0] != fe - fs or ch.tobytes() != ref[fs:fe].tobytes(): probs.append(f'chunk {k[i]} of g{i+1} ({fs}:{fe}) differs from the array contents at that moment')
     k[i] += 1
 for x in spec['acts']:
     if x in (0, 1): advance(x)
@@ -146,11 +157,11 @@ for x in spec['acts']:
     elif x == 6:
         if a[0:2].tobytes() != ref[0:2].tobytes(): probs.append('read differs')
     elif x == 7:
-        a[0:1] = 7; ref[0:1] = 7
+        a[::2] = 7; ref[::2] = 7
 order = [0, 1] if spec['order'] else [1, 0]
 for i in order:
     if gens[i] is not None and not done[i]:
-        for _ in range(5):
+        for _ in range(8):
             if not done[i]: advance(i)
 while ctxs: ctxs.pop().__exit__(None, None, None)
 if darr.Array(p)[:].tobytes() != ref.tobytes(): probs.append('final contents differ')
@@ -169,7 +180,7 @@ def replay_schedule(cex, d):
     if max(n, c1, c2) > 64:
         return {'reproduced': False, 'skip': True, 'detail': 'sizes too large'}
     rowscale = max(1, (4 * 1024 * 1024) // (4 * max(1, min(c1, c2))))     # every chunk spans several MB
-    spec = dict(n=n, c1=c1, c2=c2, acts=acts, order=bool(fx['order']), rowscale=rowscale)
+    spec = dict(n=n, c1=c1, c2=c2, s1=int(fx.get('s1', c1)), acts=acts, order=bool(fx['order']), rowscale=rowscale)
     with rp.scratch() as tmp:
         spec['path'] = tmp + '/a'
         rc, out, err = rp.run_child(_CHILD.replace('SPEC', repr(json.dumps(spec))), timeout=300)
@@ -234,6 +245,8 @@ def obligations(tier):
         seen.add(a)
         keep.append(a)
     splits = [dict(acts=a, MAXCH=3 if thorough else 2, _must=('end',)) for a in keep]
+    splits += [dict(acts=a, MAXCH=3 if thorough else 2, overlap=True, _must=('end',)) for a in keep
+               if 7 in a and 0 in a]        # overlapping chunks matter when a write lands between advances
     return [Ob('SCHED', 'h_schedule', splits=splits, timeout=T, replay='replay_schedule', per_path_timeout=60,
                sym='n, c1, c2 (array length, chunk lengths), order (finishing order of the survivors), probe',
                bounds=f'ALL {len(keep)} well-formed schedules (up to renaming g1<->g2) of L={L} actions over {{advance/close g1, '
